@@ -18,12 +18,12 @@ cd $WT
 log=$DST/confirm.log; : > $log
 cp $demo_src $WT/$demo_path
 echo "== demo on unchanged tree ($(git rev-parse --short HEAD)): $demo_cmd" >> $log
-( eval "timeout 1500 $demo_cmd" ) >> $log 2>&1; r0=$?
+( timeout 1500 bash -c "$demo_cmd" ) >> $log 2>&1; r0=$?
 echo "exit=$r0" >> $log
 if ! git apply --3way $SRC/$ID.patch.diff >> $log 2>&1; then echo "PATCH DOES NOT APPLY" >> $log; r1=99; else
 git reset -q
 echo "== demo with change" >> $log
-( eval "timeout 1500 $demo_cmd" ) >> $log 2>&1; r1=$?
+( timeout 1500 bash -c "$demo_cmd" ) >> $log 2>&1; r1=$?
 echo "exit=$r1" >> $log
 fi
 rm -f $WT/$demo_path
